@@ -329,6 +329,24 @@ def spec_check(ops):
                         present = False
                     if present:
                         return n, 'reserved name %r accepted as a key (path %r)' % (comp, pre)
+    # '..' addresses the parent level, also as the LAST component: for a leaf a.b.c in the tree, 'a.b.c..' is the level a.b
+    try:
+        leafs = [k for k in d.keys() if '[' not in k and k.count('.') >= 1][:6]
+    except Exception:
+        leafs = []
+    for q in leafs:
+        parent = q.rsplit('.', 1)[0]
+        try:
+            want = canon(d[parent])
+        except Exception:
+            continue
+        for up in (q + '..', q + '.zz...'):
+            try:
+                got = canon(d[up]); present = up in d
+            except Exception as e:
+                return len(ops), 'path %r (the parent level of %r) cannot be looked up: %s' % (up, q, type(e).__name__)
+            if got != want or not present:
+                return len(ops), 'path %r does not address the parent level %r' % (up, parent)
     # copies are structurally independent
     try:
         c = copy.deepcopy(d); snap = canon(d)
